@@ -299,11 +299,13 @@ def convertERC20NativeToken (B : Addr → Behaviour σ) (w : World σ) (pair : P
               else .ok w3
       | _, _ => .panic "nil balance"
 
-/-- case 2.2 `convertCoinNativeERC20`: escrow vouchers, the module transfers tokens to the receiver, burn vouchers. -/
+/-- case 2.2 `convertCoinNativeERC20`: escrow vouchers, the module transfers tokens to the receiver, burn vouchers.
+(With fixes/C11-escrow-postcheck.diff: the module's own token balance must have fallen by exactly the amount.) -/
 def convertCoinNativeERC20 (B : Addr → Behaviour σ) (w : World σ) (pair : Pair) (denom : Denom) (amt : Nat)
     (receiver sender : Addr) : Outcome (World σ) :=
   let c := pair.addr
   let tok0 := balOf B w c receiver
+  let esc0 := balOf B w c moduleAddr
   match w.bank.send sender moduleAddr denom amt with
   | .err e => .err e
   | .panic s => .panic s
@@ -318,11 +320,16 @@ def convertCoinNativeERC20 (B : Addr → Behaviour σ) (w : World σ) (pair : Pa
       match tok0, balOf B w2 c receiver with
       | some t0, some t1 =>
         if t1 ≠ t0 + amt then .err "aggregate:7"
-        else match w2.bank.burn denom amt with
-          | .err e => .err e
-          | .panic s => .panic s
-          | .ok bank3 =>
-            if approval then .err "aggregate:8" else .ok { w2 with bank := bank3 }
+        else match esc0, balOf B w2 c moduleAddr with
+          | some e0, some e1 =>
+            -- `big.Int.Sub` may go negative; then it can never equal the reported balance
+            if e0 < amt ∨ e1 ≠ e0 - amt then .err "aggregate:7"
+            else match w2.bank.burn denom amt with
+              | .err e => .err e
+              | .panic s => .panic s
+              | .ok bank3 =>
+                if approval then .err "aggregate:8" else .ok { w2 with bank := bank3 }
+          | _, _ => .panic "nil balance"
       | _, _ => .panic "nil balance"
 
 /-! ### messages -/
@@ -467,7 +474,8 @@ inductive Kind where
   | minterBurner          -- ERC20MinterBurnerDecimals (module-owned pairs; also the honest external token)
   | directBalance         -- ERC20DirectBalanceManipulation: half of every transfer goes to a thief (fee on transfer)
   | maliciousDelayed      -- ERC20MaliciousDelayed: every transfer emits an Approval for a thief
-  | doubleDebit           -- hand-assembled test token: transfer debits twice the amount from the caller
+  | doubleDebit           -- hand-assembled test token: transfer debits twice the amount from the caller (extra → sink)
+  | feeOnReceive          -- hand-assembled test token: transfer debits the amount plus 1 from the caller (extra → sink)
   deriving Repr, DecidableEq
 
 def thief : Addr := "4dc6ac40af078661fc43823086e1513635eeab14"
@@ -498,6 +506,15 @@ def ofOpt (o : Option TokState) (val : Option Bool) (approval : Bool) : Call Tok
   | none => .revert
   | some t => .ret t val approval
 
+/-- the hand-assembled tokens (harness/c11_dd_test.go): caller −(amt+extra), then sink +extra, then `to` +amt
+(three storage writes in this order; the sink is the thief address); no zero-address checks, no events. -/
+def advTransfer (t : TokState) (caller to : Addr) (amt extra : Nat) : Call TokState :=
+  if t.bal caller < amt + extra then .revert
+  else
+    let b1 : Addr → Nat := fun a => if a = caller then t.bal caller - (amt + extra) else t.bal a
+    let b2 : Addr → Nat := fun a => if a = thief then b1 thief + extra else b1 a
+    .ret { t with bal := fun a => if a = to then b2 to + amt else b2 a } (some true) false
+
 def repoTransfer (t : TokState) (caller to : Addr) (amt : Nat) : Call TokState :=
   match t.kind with
   | .minterBurner => ofOpt (t.move caller to amt) (some true) false
@@ -506,11 +523,8 @@ def repoTransfer (t : TokState) (caller to : Addr) (amt : Nat) : Call TokState :
     ofOpt ((t.move caller thief (amt - half)).bind (fun t1 => t1.move caller to half)) (some true) false
   | .maliciousDelayed =>
     if to = zeroAddr then .revert else ofOpt (t.move caller to amt) (some true) true
-  | .doubleDebit =>
-    if t.bal caller < 2 * amt then .revert
-    else
-      let b1 : Addr → Nat := fun a => if a = caller then t.bal caller - 2 * amt else t.bal a
-      .ret { t with bal := fun a => if a = to then b1 to + amt else b1 a } (some true) false
+  | .doubleDebit => advTransfer t caller to amt amt
+  | .feeOnReceive => advTransfer t caller to amt 1
 
 /-- The behaviour of the contracts compiled in the repository (plus the hand-assembled double-debit token). -/
 def repoBehaviour : Behaviour TokState where
